@@ -78,10 +78,8 @@ def run(tier, out, model_ok, proof):
     rng = random.Random(seed())
     docs = []
     pairs = list(treecorr.exhaustive_pairs())
-    if tier == "thorough":
-        docs += pairs
-    else:
-        docs += rng.sample(pairs, 2500)
+    docs += pairs          # all 10^4 (parent, child) renderings x explicit/implicit in both tiers
+    docs += list(treecorr.chain_docs())     # every (parent, child) entry at the end of a valid ancestor chain
     # triples: sampled (exhaustive is ~10^6)
     items = [(r, x) for k in treecorr.KIND_LIST for r in treecorr.RENDER[k] for x in (False, True)]
     for _ in range(30000 if tier == "thorough" else 3000):
@@ -119,6 +117,23 @@ def run(tier, out, model_ok, proof):
         j = judge(d, r, crashes.get(c["id"]))
         if j:
             out.violations.append({"what": j[0], "class": j[1], "input": bytes.fromhex(c["files"]["root.jst"]).decode("latin1")})
+    # every context-capable kind (explicit and implicit) x every child rendering x every kind after it:
+    # judged by the reference automaton only (the model is not run on these)
+    k2r = lambda k: "200" if k == "RESP" else k
+    tdocs = []
+    for pk in ctxref.TABLE:
+        for p_x in (False, True):
+            for k1 in treecorr.KIND_LIST:
+                for r1 in treecorr.RENDER[k1]:
+                    for x1 in ((False, True) if tier == "thorough" else (False,)):
+                        for k2 in treecorr.KIND_LIST:
+                            tdocs.append(sanitize([(treecorr.RENDER[k2r(pk)][0], p_x), (r1, x1), (treecorr.RENDER[k2][0], False)]))
+    tcases = [treecorr.single_file_case("t%d" % i, treecorr.render_tokens(d)) for i, d in enumerate(tdocs)]
+    tg, tcr = treecorr.run_isolated(os.path.join(BUILD, "harness"), ["tree"], [json.dumps(c) for c in tcases], shards=16)
+    for c, d in zip(tcases, tdocs):
+        j = judge(d, tg.get(c["id"]), tcr.get(c["id"]))
+        if j:
+            out.violations.append({"what": j[0], "class": j[1], "input": bytes.fromhex(c["files"]["root.jst"]).decode("latin1")})
     # property-directed search around every disagreement between model and implementation
     if mism:
         items2 = [(r, False) for k in treecorr.KIND_LIST for r in treecorr.RENDER[k]] + [")"]
@@ -139,9 +154,10 @@ def run(tier, out, model_ok, proof):
         out.broken.append({"what": "directive-layer model and implementation disagree: " + x["what"],
                            "detail": {"input": bytes.fromhex(x["case"]["files"]["root.jst"]).decode("latin1")}})
     out.coverage.update({
-        "evaluations": len(cases),
+        "evaluations": len(cases) + len(tcases),
+        "triples_judged_by_reference_only": len(tcases),
         "distinct_nontrivial": len(nontrivial),
-        "rule": "sequences of directives over all 31 kinds (x path / no path, x body / no body renderings) x explicit/implicit, with ')' tokens: %s pairs, sampled triples, random sequences up to 12, structured valid documents and their perturbations; non-trivial = at least two tokens; each case: (a) scanner+core forest with every parent link, error class/line compared between implementation and extracted Coq model, (b) implementation verdict judged by an independent reference automaton (lib/ctxref.py)" % ("all" if tier == "thorough" else "2500 sampled"),
+        "rule": "sequences of directives over all 31 kinds (x path / no path, x body / no body renderings) x explicit/implicit, with ')' tokens: %s pairs, every (parent, child) pair below a valid chain of ancestors (explicit and implicit), all triples (context kind, child rendering, next kind) judged by the reference, sampled arbitrary triples, random sequences up to 12, structured valid documents and their perturbations; non-trivial = at least two tokens; each case: (a) scanner+core forest with every parent link, error class/line compared between implementation and extracted Coq model, (b) implementation verdict judged by an independent reference automaton (lib/ctxref.py)" % "all",
         "samples": [bytes.fromhex(c["files"]["root.jst"]).decode("latin1") for c in cases[:2] + cases[-2:]],
         "traces_validated_against_impl": len(cases) - len(mism) if model_ok else 0,
         "reference_verdicts": verdicts,
